@@ -319,6 +319,8 @@ pub trait BackendOps: Sync {
     fn word(&self, spec: &WordSpec, w: &Window, cfg: Option<sched::Config>) -> RunResult;
     /// SHARED with plain std threads and no scheduler (engine B / Miri).
     fn shared_unsync(&self, spec: &SharedSpec) -> Result<RunOut, String>;
+    /// structural hash of the Module the C12 inventory shares for ring degree `n` (see `module_struct_hash`)
+    fn module_state(&self, n: u32) -> u64;
     /// C12 inventory of single-call ops (see c12/ops.rs)
     fn core_op(&self, op: &str, shape: &crate::c12::ops::Shape, w: &Window) -> RunResult;
     fn core_ops(&self) -> &'static [&'static str];
@@ -615,6 +617,21 @@ macro_rules! backend_impl {
             }
 
             /// One fixed computation through the module handle: its bytes must never change.
+            /// Raw bytes of the Module value and of the backend handle struct it points to (not of the tables the
+            /// handle owns): the property's state anchor says the handle stays immutable after construction, so any
+            /// interior mutation - a lazily filled memo, a busy flag left set, a cache slot - shows here.
+            pub fn module_struct_hash(m: &Module<BE>) -> u64 {
+                if cfg!(miri) {
+                    // padding bytes are uninitialised for Miri
+                    return 0;
+                }
+                let a = unsafe { std::slice::from_raw_parts(m as *const Module<BE> as *const u8, std::mem::size_of::<Module<BE>>()) };
+                let b = unsafe {
+                    std::slice::from_raw_parts(m.as_mut_ptr() as *const u8, std::mem::size_of::<<BE as poulpy_hal::layouts::Backend>::Handle>())
+                };
+                crate::util::fnv_mix(crate::util::fnv(a), crate::util::fnv(b))
+            }
+
             fn module_fingerprint(c: &Ctx) -> u64 {
                 use poulpy_core::GLWEEncryptSk;
                 let mut ct: GLWE<Vec<u8>> = GLWE::alloc_from_infos(&c.glwe_infos);
@@ -623,7 +640,7 @@ macro_rules! backend_impl {
                 let mut xe = Source::new([8u8; 32]);
                 let mut scratch: ScratchOwned<BE> = ScratchOwned::alloc(1 << 16);
                 c.module.glwe_encrypt_zero_sk(&mut ct, &c.sk_prep, &enc, &mut xe, &mut xa, scratch.borrow());
-                crate::util::fnv(&ct.data().data)
+                crate::util::fnv_mix(crate::util::fnv(&ct.data().data), module_struct_hash(&c.module))
             }
 
             crate::c12::ops::core_ops_impl!(BE);
@@ -784,6 +801,9 @@ macro_rules! backend_impl {
                         Some(r) => r,
                         None => ops::core_op(op, shape, w),
                     }
+                }
+                fn module_state(&self, n: u32) -> u64 {
+                    module_struct_hash(&ctx(n, 1).module)
                 }
                 fn core_ops(&self) -> &'static [&'static str] {
                     static ALL: std::sync::OnceLock<Vec<&'static str>> = std::sync::OnceLock::new();
